@@ -184,7 +184,7 @@ def p2_constants(acc):
     return nr, nphi, r, beta, w
 
 
-def p2_cloud(scn, v, o):
+def p2_cloud(scn, v, o, only=None, only_phi=None):
     """q_calc is the documented polar cloud around each data point, aligned with the q direction."""
     if not _ok(o) or o["weights"] is None:
         return []
@@ -192,15 +192,22 @@ def p2_cloud(scn, v, o):
     qx, qy = v["qx"], v["qy"]
     n = len(qx)
     floor = 1.0e-10                    # documented substitute for a vanishing width
-    out = [Rel("true", o["nbins"] == nr * nphi, "nr x nphi cloud points")]
+    out = [Rel("true", o["nbins"] == nr * nphi, "nr x nphi cloud points")] if not only_phi else []
     for i in range(n):
-        dpar, dperp = g_max(v["dpar"][i], floor), g_max(v["dperp"][i], floor)
+        if only is not None and i != only:
+            continue
+        dpar, dperp = v["dpar"][i], v["dperp"][i]
         qr = g_sqrt(qx[i] * qx[i] + qy[i] * qy[i])
         for b in range(nphi):
+            if only_phi is not None and b != only_phi:
+                continue
+            cb, sb = float(np.cos(beta[b])), float(np.sin(beta[b]))
             for a in range(nr):
                 p = (b * nr + a) * n + i
-                rho_par = float(r[a] * np.cos(beta[b])) * dpar if False else (r[a] * dpar) * float(np.cos(beta[b]))
-                rho_perp = (r[a] * dperp) * float(np.sin(beta[b]))
+                # a width below the floor is replaced by 1e-10; that branch is a product of
+                # doubles (rounded as the code rounds it), the other one is exact in the width
+                rho_par = g_ite(dpar >= floor, (r[a] * dpar) * cb, (float(r[a]) * floor) * cb)
+                rho_perp = g_ite(dperp >= floor, (r[a] * dperp) * sb, (float(r[a]) * floor) * sb)
                 out.append(Rel("eq", o["qx_calc"][p] * qr, qx[i] * qr + rho_par * qx[i] - rho_perp * qy[i],
                                "qx cloud point (i=%d, r=%d, phi=%d) = q + Rot(q)(par, perp)" % (i, a, b)))
                 out.append(Rel("eq", o["qy_calc"][p] * qr, qy[i] * qr + rho_par * qy[i] + rho_perp * qx[i],
@@ -239,9 +246,24 @@ ORACLES = {
 }
 
 
+class _CloudOf:
+    """cloud obligation of one data point and one azimuth (data points are
+    independent; small polynomial queries are decided much faster than their conjunction)."""
+
+    def __init__(self, i, b):
+        self.i, self.b = i, b
+
+    def __call__(self, scn, v, o):
+        return p2_cloud(scn, v, o, only=self.i, only_phi=self.b)
+
+
 def oracles_for(scn):
     if scn.kind == "slit-matrix" and scn.cfg["mode"] == "00":
         return [("zero-width-identity", c03.sm_zero)]
+    if scn.kind == "pinhole2d":
+        nphi = p2_constants(scn.cfg.get("accuracy", "low"))[1]
+        return [("cloud" if i == 0 else "cloud-point-%d" % i, _CloudOf(i, b))
+                for i in range(scn.cfg["n"]) for b in range(nphi)] + [("ring-weights-and-mean", p2_weights)]
     return list(ORACLES[scn.kind])
 
 
@@ -255,7 +277,9 @@ def guarantees(scn, v, o, notes):
             t = a.arg(0)
             c = symx.uf_decl("cos", 1)(z3.simplify(-a))
             s = symx.uf_decl("sin", 1)(z3.simplify(-a))
-            hyp += [c > 0, s == -(t * c), c * c + s * s == 1]
+            num, den = RS._fraction(t)
+            tan = (s == -(t * c)) if den is None else (s * den == -(num * c))   # den != 0 assumed (qx != 0)
+            hyp += [c > 0, tan, c * c + s * s == 1]
     return hyp
 
 
@@ -268,9 +292,11 @@ def classify(scn, oname, v, o_sym, vals=None, bad=()):
     block = None
     if scn.kind == "slit-matrix":
         key = "%s/slit-matrix-%s/%s" % (PID, scn.cfg["mode"], oname)
-    if scn.kind == "pinhole2d" and oname == "cloud" and vals is not None and np.any(np.asarray(vals["qx"]) < 0):
+    if scn.kind == "pinhole2d" and oname.startswith("cloud") and vals is not None \
+            and np.asarray(vals["qx"])[int(oname.rsplit("-", 1)[1]) if oname.startswith("cloud-point-") else 0] < 0:
         key = "%s/pinhole2d/cloud-centred-at-minus-q-for-negative-qx" % PID
-        block = z3.Or(*[term(x) < 0 for x in v["qx"]])
+        i = int(oname.rsplit("-", 1)[1]) if oname.startswith("cloud-point-") else 0
+        block = term(v["qx"][i]) < 0
     return key, block
 
 
@@ -300,11 +326,11 @@ def configs(chk):
         for mode in ("L", "W", "LW"):
             jobs.append(("slit1d", {"mode": mode, "shape": "vector", "n": n}))
         jobs.append(("slit1d", {"mode": "LW", "shape": "scalar", "n": n, "grid": "user", "nc": 3}))
-    for n in (1, 2):
-        for acc in (("low", "med") if quick else ("low", "med", "high", "xhigh")):
-            if n == 2 and acc == "xhigh":
-                continue
-            jobs.append(("pinhole2d", {"n": n, "accuracy": acc}))
+    # data points are independent in the 2-D code; two points only to pin the interleaving of the cloud arrays
+    for acc in (("low", "med") if quick else ("low", "med", "high", "xhigh")):
+        jobs.append(("pinhole2d", {"n": 1, "accuracy": acc}))
+    for acc in (("low",) if quick else ("low", "med")):
+        jobs.append(("pinhole2d", {"n": 2, "accuracy": acc}))
     return jobs
 
 
